@@ -102,6 +102,7 @@ type qResult struct {
 	stats       bs.QueryStats
 	rowAfter    map[string]any
 	semInUse    int
+	goAtFalse   int // goroutines above the pre-Query baseline once Next had returned false (before any later Close / cancel)
 }
 
 func runQueryScenario(h *History, q *bs.Query, sc qScenario) qResult {
@@ -139,6 +140,7 @@ func runQueryScenario(h *History, q *bs.Query, sc qScenario) qResult {
 	}
 	defer cancel()
 	var ctx context.Context = mctx
+	gBase := runtime.NumGoroutine()
 	res, err := eng.Query(ctx, q)
 	if err != nil {
 		out.err1 = err
@@ -171,6 +173,12 @@ func runQueryScenario(h *History, q *bs.Query, sc qScenario) qResult {
 		}
 	}
 	wg.Wait()
+	// Next has returned false: whatever the query started must be gone now, before any further Close or cancel
+	// (the Query context is a non-standard Context type, so a derived context keeps a watcher goroutine alive
+	// until it is cancelled)
+	if n := waitGoroutines(gBase); n > gBase {
+		out.goAtFalse = n - gBase
+	}
 	out.rowAfter = res.Row()
 	out.err1 = res.Err()
 	out.again = res.Next()
@@ -293,6 +301,9 @@ func runQuerySide(c *ctx, which string) {
 				}
 				if n := waitGoroutines(base); n > base {
 					c.r.Add(Finding{Kind: "violation", Check: "goroutines-left", Detail: fmt.Sprintf("%d goroutines still running after the query ended (baseline %d)", n, base), Replay: replay})
+				}
+				if out.goAtFalse > 0 {
+					c.r.Add(Finding{Kind: "violation", Check: "goroutines-left", Detail: fmt.Sprintf("%d goroutine(s) started for the query were still running 400ms after Next had returned false (before any later Close or cancel; the Query context is a non-standard Context type)", out.goAtFalse), Replay: replay})
 				}
 				if out.semInUse != 0 {
 					c.r.Add(Finding{Kind: "violation", Check: "semaphore-not-restored", Detail: fmt.Sprintf("%d query-semaphore slots still taken after the query ended", out.semInUse), Replay: replay})
